@@ -533,7 +533,9 @@ impl AnnotationDataSet {
             if self.keys_len() == 0 {
                 return Self::from_csv_file(filename, self.config().clone());
             }
-            todo!("Merging CSV files for AnnotationDataSet is not supported yet");
+            return Err(StamError::OtherError(
+                "Merging CSV files for AnnotationDataSet is not supported yet",
+            ));
             //TODO
         }
 
